@@ -5,8 +5,9 @@
     [named_array_ok gen_disp_size name disp_arrays = true], [mode_eqb gen_entity_parse_mode InOrder = true], ...)
     in the kernel on every run.  Only statements here; proofs are in Fmt/VmfTextProofs.v. *)
 From Coq Require Import NArith ZArith List String Bool.
-From SV Require Import Fmt.VmfText Fmt.VmfTextProofs.
-From SV Require Import Gen.VmfTemplates_gen Gen.VmfKeys_gen Gen.VmfDispSizes_gen Gen.VmfOrder_gen.
+From SV Require Import KV.KvBase KV.KvLex KV.KvParse.
+From SV Require Import Fmt.VmfText Fmt.VmfTextProofs Fmt.VmfBlocks Fmt.VmfBlocksProofs Fmt.VmfFields Fmt.VmfFieldsProofs.
+From SV Require Import Gen.VmfTemplates_gen Gen.VmfKeys_gen Gen.VmfDispSizes_gen Gen.VmfOrder_gen Gen.VmfProg_gen Gen.VmfFieldsCfg_gen.
 Import ListNotations.
 
 (** 1. Strings survive.  escape_text is inverted by the tokenizer's quoted-string scanner, for every string
@@ -99,3 +100,80 @@ Theorem c06_fixup_index_roundtrip : forall n, (1 <= n <= 99)%N -> index_roundtri
 Proof. exact fixup_index_roundtrip_1_99. Qed.
 Theorem c06_fixup_index_100_refuted : index_roundtrip 2 2 100 = false.
 Proof. exact fixup_index_100_refuted. Qed.
+
+(** 6. Composition into blocks (round 2).  Every export method is a write program generated from vmf.py
+    (Gen/VmfProg_gen.v: keyvalue lines, blocks, optional hidden wrappers, conditionals, loops, calls with the indentation
+    they pass).  For every program table that passes the generated check [table_ok], every method of the table, every
+    environment (field values of any content, outcome of every condition, any number of loop iterations and callees,
+    recursively) whose numeric fields are plain, and every call depth: the text the method writes is parsed by the
+    KeyValues1 model of C01 (tokenizer + Keyvalues.parse, rocq/KV) into exactly the tree the writer was given -- the
+    key and value of every line and the child blocks, in order.  [doc_names_ok]: no key contains LF/CR (format limit of
+    Keyvalues.parse). *)
+Theorem c06_block_text_parses : forall nums tbl, table_ok nums tbl = true ->
+  forall fuel fn e text kvs flag_on, env_ok nums e ->
+  run (fun_lookup tbl) fuel (fun_lookup tbl fn) [] e = Some (text, kvs) -> doc_names_ok kvs = true ->
+  parse_kv vmf_E flag_on text = POk kvs.
+Proof. exact table_text_parses. Qed.
+
+(** ... for any function table, not only an association list *)
+Theorem c06_program_text_parses : forall nums funs, (forall fn, prog_ok nums (funs fn) = true) ->
+  forall fuel p e text kvs flag_on, prog_ok nums p = true -> env_ok nums e ->
+  run funs fuel p [] e = Some (text, kvs) -> doc_names_ok kvs = true ->
+  parse_kv vmf_E flag_on text = POk kvs.
+Proof. exact program_text_parses. Qed.
+
+(** The class condition of [prog_ok] is necessary at this level too: a line with a raw string value does not parse
+    back to the tree the writer was given. *)
+Theorem c06_raw_line_refuted :
+  exists e, forall fuel text kvs, run (fun _ => PEnd) (S fuel) raw_prog [] e = Some (text, kvs) ->
+    parse_kv vmf_E (fun _ => false) text <> POk kvs.
+Proof. exact raw_line_refuted. Qed.
+
+(** 7. Field-level glue between the tree and the objects (round 2).
+    Row keys: if the generated reader configuration (how Side._iter_disp_row recognises a key and takes its index)
+    passes [rows_recognised] for the first n rows of the written prefix, then it reads the index y from the key the
+    writer produces for every y < n (n = 17 covers power 4; by 3. never more than size <= 17 rows are written). *)
+Theorem c06_row_keys_read : forall r p n, rows_recognised r p n = true ->
+  forall y, (y < N.of_nat n)%N -> read_row r (row_key p y) = Some y.
+Proof. exact rows_recognised_sound. Qed.
+Theorem c06_one_digit_row_reader_refuted :
+  rows_recognised one_digit_rowreader ROW 17 = false /\ read_row one_digit_rowreader (row_key ROW 10) = None
+  /\ rows_recognised one_digit_rowreader ROW 9 = true.
+Proof. exact one_digit_rowreader_refuted. Qed.
+
+(** Output values: as_keyvalue joins target, input, parameter, delay, times with ESC or with commas; parse chooses
+    the separator by the presence of ESC, demands five fields and re-joins extra commas into the parameter.  Exact
+    for every output none of whose fields contains ESC and, in the comma form, whose fields other than the parameter
+    contain no comma; both conditions are necessary. *)
+Theorem c06_output_value_roundtrip : forall o, outv_ok o = true -> out_parse (out_join o) = Some o.
+Proof. exact out_roundtrip. Qed.
+Theorem c06_output_comma_in_target_refuted :
+  let o := mk_outv [97; 44; 98] [105] [] [48] [49] true in out_parse (out_join o) <> Some o.
+Proof. exact out_comma_in_target_refuted. Qed.
+Theorem c06_output_esc_in_comma_form_refuted :
+  let o := mk_outv [97] [105] [27] [48] [49] true in out_parse (out_join o) = None.
+Proof. exact out_esc_in_comma_form_refuted. Qed.
+
+(** instance:name;command -- [is_inst] stands for name.casefold().startswith('instance:') (Unicode case folding is
+    external; assumed only to accept the literal lower-case prefix). *)
+Theorem c06_instance_name_roundtrip : forall is_inst : list N -> bool,
+  (forall x, is_inst (inst_prefix ++ x)%list = true) ->
+  forall i cmd, i <> [] -> has SEMI i = false ->
+  parse_name is_inst (exp_name (Some i) cmd) = Some (Some i, cmd).
+Proof. exact name_roundtrip_instance. Qed.
+Theorem c06_plain_name_roundtrip : forall (is_inst : list N -> bool) cmd, is_inst cmd = false ->
+  parse_name is_inst (exp_name None cmd) = Some (None, cmd).
+Proof. exact name_roundtrip_plain. Qed.
+
+(** Fixups: the line  "replaceNN" "$var value"  re-reads as (var, value, NN) for indexes 1..99 and variable names that
+    are non-empty, contain no space and do not start with '$'; EntityFixup.__init__ keeps distinct positive indexes of
+    distinctly named variables ([same_var] = equality of casefolded names, external); hence up to 99 such fixups survive export and parse with their indexes. *)
+Theorem c06_fixup_line_roundtrip : forall f, fixup_ok f = true -> parse_fixup_line 2 (fixup_line 2 f) = f.
+Proof. exact fixup_line_roundtrip. Qed.
+Theorem c06_fixups_roundtrip : forall (same_var : list N -> list N -> bool) l, fixups_ok l = true ->
+  vars_fresh same_var [] l = true ->
+  fix_init same_var (map (parse_fixup_line 2) (map (fixup_line 2) l)) = l.
+Proof. exact fixups_roundtrip. Qed.
+Theorem c06_fixup_space_in_name_refuted :
+  parse_fixup_line 2 (fixup_line 2 ([97; 32; 98], [118], 1%N)) <> ([97; 32; 98], [118], 1%N).
+Proof. exact fixup_space_in_name_refuted. Qed.
